@@ -322,7 +322,8 @@ def arcovar(x, order):
     # Estimate the input white noise variance
     Cz = np.dot(X1.conj().transpose(), Xc)
     e = np.dot(X1.conj().transpose(), X1) + np.dot(Cz, a)
-    assert abs(e.imag) < 1e-4 * max(1., abs(e.real)), 'wierd behaviour'
+    # the imaginary part is rounding noise of the energy X1^H X1, not of the (possibly zero) error
+    assert abs(e.imag) < 1e-4 * max(1., abs(np.dot(X1.conj().transpose(), X1))), 'wierd behaviour'
     e = float(e.real) # ignore imag part that should be small
 
     return a, e
